@@ -32,6 +32,10 @@ FolderConfigs ==
     \* non-positive rates
     <<File(1, M2, M2, 10, "xml", {<<"USD", "zero">>})>>,
     <<File(1, M2, M2, 10, "xml", {<<"EUR", "neg">>, <<"USD", "pos">>})>>,
+    \* a file that cannot be read as a rates file at all (truncated XML / bytes that are not UTF-8): bad, the run fails --
+    \* the rate the user supplied is never silently replaced by the bundled one
+    <<File(1, M1, M1, 10, "xml", {<<"USD", "garbled">>})>>,
+    <<File(1, M2, M2, 10, "xml", Pos2("EUR")), File(2, M3, M3, 20, "xml", {<<"USD", "garbled">>})>>,
     \* a non-xml file is ignored even if it is garbage, next to a valid override
     <<File(1, M1, M2, 5, "txt", {<<"USD", "zero">>}), File(2, M2, M2, 10, "xml", Pos2("EUR"))>>,
     \* a good file applied before a bad one still fails the run
